@@ -141,6 +141,8 @@ type node struct {
 }
 
 type world struct {
+	forced    []string // step kinds to run first
+	bigBodies bool
 	c      *core.Case
 	srv    *fixture.Server
 	cl     *refclient.Client
@@ -268,6 +270,9 @@ func (w *world) doStep() bool {
 	cats := w.paths(3)
 	bundles := w.paths(2)
 	kind := core.Pick(r, []string{"new-bundle", "new-category", "new-category", "post", "post", "post", "reply", "reply", "delete-article", "delete-article", "delete-item", "ghost-read", "ghost-delete-article", "ghost-reply", "reload"})
+	if len(w.forced) > 0 {
+		kind, w.forced = w.forced[0], w.forced[1:]
+	}
 	if len(cats) == 0 && (kind == "post" || kind == "reply" || kind == "delete-article") {
 		kind = "new-category"
 	}
@@ -315,6 +320,9 @@ func (w *world) doStep() bool {
 			parent = core.Pick(r, ids)
 		}
 		title, body := w.genText(255), w.genText(60000)
+		if w.bigBodies && len(w.forced) > 0 {
+			body = string(r.Printable(55000 + r.Intn(5000)))
+		}
 		before, _, ok := w.listIDs(p)
 		if !ok {
 			return false
@@ -677,6 +685,18 @@ func runCase(c *core.Case) {
 	}
 	w := &world{c: c, srv: srv, cl: cl, poster: poster, kinds: map[string]int{}, root: &node{typ: 2, kids: map[string]*node{}, arts: map[uint32]*art{}}}
 	steps := 15 + c.R.Intn(21)
+	if c.Index%12 == 7 {
+		// the store of a long-lived server: the history starts with twenty articles of 55-60 KB (a news file above 1 MiB)
+		// and a reload, and goes on from there
+		w.bigBodies = true
+		w.forced = []string{"new-category"}
+		for i := 0; i < 20; i++ {
+			w.forced = append(w.forced, "post")
+		}
+		w.forced = append(w.forced, "reload", "post")
+		steps = len(w.forced) + 6
+		c.Count("histories_with_a_news_file_above_1MiB", 1)
+	}
 	for w.step = 1; w.step <= steps; w.step++ {
 		if !w.doStep() || !w.check() {
 			break
